@@ -100,8 +100,8 @@ CHECKS = {
  "C19": ("exploration",
          "complete cartesian enumeration of URLs assembled from component alphabets through the real URL decoding, oracle = the components (never re-parsed)",
          "1.68 million URLs (thorough: more hosts and all ordered triples of valid parameters) assembled from scheme x userinfo x host x port x path x query alphabets; decoded host, port, credentials, vhost, heartbeat, channel_max, connection_timeout, auth mechanism or the specific error compared with the tuple the URL was built from; Connection::open on every accepted amqp:// shape must answer InsecureUrl.",
-         "Decoding is observed through a probe that runs the same three calls Connection::open runs before touching the network; the TCP loopback slice is not part of this check yet.",
-         "DESIGN.md §6 C19", "seqx"),
+         "Decoding is observed through a probe that runs the same three calls Connection::open runs before touching the network; a loopback slice (simx urlslice) opens nine URLs with the real Connection::insecure_open against the scripted broker behind a TCP listener and compares what the broker receives.",
+         "DESIGN.md §6 C19", "seqx+simx"),
  "C20": ("model_checking",
          "complete enumeration of ordered event subsets made pending in one poll batch of the real I/O thread (batch driver on the controlled scheduler), with a differential oracle against every serial handling",
          "After a default-schedule setup the I/O thread is held at its gate while every ordered subset (up to 4, thorough 5 events) of {server Connection.Close, server Channel.Close, one channel-0 request (open_channel / listen_for_connection_blocked / Connection::close), publish and/or call on the closed channel, call on another channel} is made pending in that order (readiness order = batch order), then one poll handles them together; also with the transport stalled so the closing state spans batches. 1410 (thorough more) batches. Oracle: no panic, every request returns, Connection::close reports the server's close, and the results equal those of some serial (one event per batch) handling of the same events.",
